@@ -28,6 +28,35 @@ func TestVerif_C05_h2verdict(t *testing.T) {
 		flags := c05flags(r, ty)
 		sid := c05sid(r, ty)
 		payload := c05payload(r, ty, flags)
+		if r.Intn(8) == 0 {
+			// the rarely drawn corners, named by the rule they sit on
+			type corner struct {
+				ty, flags byte
+				sid       uint32
+				payload   []byte
+			}
+			k := verifh.Pick(r, []corner{
+				{0, 0x8, 1, nil},                                                  // DATA PADDED, no Pad Length octet
+				{0, 0x8, 1, []byte{0}},                                            // Pad Length 0 = payload length 1 - 1
+				{0, 0x8, 1, []byte{1}},                                            // padding == remaining + 1
+				{0, 0x8, 3, []byte{2, 9, 0, 0}},                                   // exact fit
+				{1, 0x28, 1, []byte{0, 0, 0, 0, 0}},                               // HEADERS PADDED|PRIORITY one octet short
+				{1, 0x28, 1, []byte{1, 0, 0, 0, 0, 7}},                            // fixed fields fit, padding 1 > 0 left
+				{1, 0x28, 1, []byte{1, 0, 0, 0, 0, 7, 0}},                         // exact fit
+				{5, 0x8, 1, []byte{0, 0, 0, 0}},                                   // PUSH_PROMISE PADDED one short
+				{5, 0x8, 1, []byte{1, 0, 0, 0, 2}},                                // padding 1 > 0 left
+				{8, 0, 0, []byte{0, 0, 0, 0}},                                     // WINDOW_UPDATE zero increment, connection
+				{8, 0, 0, []byte{0x80, 0, 0, 0}},                                  // reserved bit set, increment still zero
+				{8, 0, 5, []byte{0x80, 0, 0, 0}},                                  // ... on a stream
+				{8, 0, 5, []byte{0x80, 0, 0, 1}},                                  // increment 1
+				{4, 0, 0, []byte{0, 4, 0x7f, 0xff, 0xff, 0xff}},                   // INITIAL_WINDOW_SIZE 2^31-1
+				{4, 0, 0, []byte{0, 4, 0x80, 0, 0, 0}},                            // 2^31
+				{4, 0, 0, []byte{0, 4, 0, 0, 0, 1, 0, 4, 0xff, 0xff, 0xff, 0xff}}, // only the first occurrence counts
+				{4, 1, 0, []byte{0, 1, 0, 0, 0, 0}},                               // ACK with payload
+				{4, 1, 3, nil},                                                    // ACK on a stream
+			})
+			ty, flags, sid, payload = k.ty, k.flags, k.sid, k.payload
+		}
 		var in []byte
 		skip := 0
 		if ty == 9 {
